@@ -193,6 +193,12 @@ def run(chk):
         rp = json.load(open(chk.replay))
         cases = [rp["case"]["input"]]
         return judge(chk, work, drv, cases, {}, quick)
+    if os.environ.get("VERIF_C12_CASES"):
+        # development aid (mutation experiments): replay a cases file saved from an earlier run instead of
+        # running the generators again; the design-level jobs are skipped and the evidence says so
+        cases = V.read_jsonl(os.environ["VERIF_C12_CASES"])
+        chk.notes["cases_from_file"] = os.environ["VERIF_C12_CASES"]
+        return judge(chk, work, drv, cases, {}, quick)
 
     # ---- 1. TLC jobs (design level + generators), run side by side
     jobs = {}
@@ -365,9 +371,9 @@ def judge(chk, work, drv, cases, gen_notes, quick, collect_design=None):
     chunks = 6 if quick else 14
     mslim = slim if not quick else slim[::2]
     with concurrent.futures.ThreadPoolExecutor(max_workers=2) as ex:
-        fobs = ex.submit(V.fold_traces, work, "CRDTObs", "CRDTObs.cfg", slim, 2400, "trace.ndjson", chunks, 8)
+        fobs = ex.submit(V.fold_traces, work, "CRDTObs", "CRDTObs.cfg", slim, 2400, "trace.ndjson", chunks, 4)
         fimp = ex.submit(V.fold_traces, work, "CRDTImplTrace", "CRDTImplTrace.cfg", mslim, 2400, "trace.ndjson",
-                         max(2, chunks // 2), 4)
+                         max(2, chunks // 2), 2)
         obs, mt = fobs.result(), fimp.result()
     chk.notes["phase_s"]["fold"] = round(time.time() - t0, 1)
     if collect_design:
@@ -382,7 +388,9 @@ def judge(chk, work, drv, cases, gen_notes, quick, collect_design=None):
         chk.inconclusive.append("CRDTObs: " + e)
     # a value that breaks a law (StateFn) ends the folding of its case; fold such cases again with ReadOK
     # alone to see whether the history also ends in an observably wrong Read()
-    lawseg = [r["seg"] for r in obs["rejected"] if r["kind"] == "invariant" and "StateFn" in r["text"]][:12]
+    lawseg = [r["seg"] for r in obs["rejected"] if r["kind"] == "invariant" and "StateFn" in r["text"]]
+    lawseg.sort(key=lambda sg: (not sg[0]["case"].startswith(("cex", "directed")), sg[0]["kind"]))
+    lawseg = [sg for k in ("aworset", "gcounter", "lww") for sg in [x for x in lawseg if x[0]["kind"] == k][:4]]
     rejected = list(obs["rejected"])
     if lawseg:
         ro = V.fold_traces(work, "CRDTObs", "CRDTObsRead.cfg", lawseg, 1200, "trace.ndjson", min(4, len(lawseg)), 4)
